@@ -147,21 +147,19 @@ theorem arr_set_call_oob {F : GFile} {len : Nat} {e : Ty} (hl : ArrLink F len e)
 
 /-! ### related lists position by position -/
 
-theorem toGVs_get {env : Env} {η : Hp} : ∀ {vs : List Val} {gs : List GVal} (i : Nat), toGVs env η vs = some gs →
-    (vs[i]? = none ∧ gs[i]? = none) ∨ ∃ v g, vs[i]? = some v ∧ gs[i]? = some g ∧ toGV env η v = some g
-  | [], gs, i, h => by simp [toGVs] at h; subst h; left; simp
-  | v :: vs, gs, i, h => by
-    simp only [toGVs] at h
-    cases h1 : toGV env η v with
-    | none => rw [h1] at h; simp at h
-    | some g =>
-      cases h2 : toGVs env η vs with
-      | none => rw [h1, h2] at h; simp at h
-      | some gs' =>
-        rw [h1, h2] at h; simp only [Option.some.injEq] at h; subst h
-        cases i with
-        | zero => right; exact ⟨v, g, by simp, by simp, h1⟩
-        | succ i => simpa using toGVs_get i h2
+theorem toGVs_get {env : Env} {η : Hp} : ∀ {vs : List Val} {gs : List GVal} {len : Nat} {e : Ty} (i : Nat),
+    VRels env η vs (List.replicate len e) gs →
+    (vs[i]? = none ∧ gs[i]? = none) ∨ ∃ v g, vs[i]? = some v ∧ gs[i]? = some g ∧ VRel env η v e g
+  | [], gs, len, e, i, h => by
+    cases gs <;> cases len <;> simp [List.replicate, VRels] at h
+    left; simp
+  | v :: vs, [], len, e, i, h => by cases len <;> simp [List.replicate, VRels] at h
+  | v :: vs, g :: gs, 0, e, i, h => by simp [List.replicate, VRels] at h
+  | v :: vs, g :: gs, len + 1, e, i, h => by
+    simp only [List.replicate, VRels] at h
+    cases i with
+    | zero => right; exact ⟨v, g, by simp, by simp, h.1⟩
+    | succ i => simpa using toGVs_get i h.2
 
 theorem hasTys_replicate_get {env : Env} {η : Hp} : ∀ {vs : List Val} {len : Nat} {e : Ty} (i : Nat) {v : Val},
     HasTys env η vs (List.replicate len e) → vs[i]? = some v → HasTy env η v e
@@ -173,21 +171,18 @@ theorem hasTys_replicate_get {env : Env} {η : Hp} : ∀ {vs : List Val} {len : 
     | zero => simp at hv; subst hv; exact h.1
     | succ i => simp only [List.getElem?_cons_succ] at hv; exact hasTys_replicate_get i h.2 hv
 
-theorem toGVs_set {env : Env} {η : Hp} : ∀ {vs : List Val} {gs : List GVal} (i : Nat) {v : Val} {g : GVal},
-    toGVs env η vs = some gs → toGV env η v = some g → toGVs env η (vs.set i v) = some (gs.set i g)
-  | [], gs, i, v, g, h, _ => by simp [toGVs] at h; subst h; simp [toGVs]
-  | v0 :: vs, gs, i, v, g, h, hg => by
-    simp only [toGVs] at h
-    cases h1 : toGV env η v0 with
-    | none => rw [h1] at h; simp at h
-    | some g0 =>
-      cases h2 : toGVs env η vs with
-      | none => rw [h1, h2] at h; simp at h
-      | some gs' =>
-        rw [h1, h2] at h; simp only [Option.some.injEq] at h; subst h
-        cases i with
-        | zero => simp [toGVs, hg, h2]
-        | succ i => simp [toGVs, h1, toGVs_set i h2 hg]
+theorem toGVs_set {env : Env} {η : Hp} : ∀ {vs : List Val} {gs : List GVal} {len : Nat} {e : Ty} (i : Nat) {v : Val} {g : GVal},
+    VRels env η vs (List.replicate len e) gs → VRel env η v e g → VRels env η (vs.set i v) (List.replicate len e) (gs.set i g)
+  | [], gs, len, e, i, v, g, h, _ => by
+    cases gs <;> cases len <;> simp [List.replicate, VRels] at h
+    simp [VRels]
+  | v0 :: vs, [], len, e, i, v, g, h, _ => by cases len <;> simp [List.replicate, VRels] at h
+  | v0 :: vs, g0 :: gs, 0, e, i, v, g, h, _ => by simp [List.replicate, VRels] at h
+  | v0 :: vs, g0 :: gs, len + 1, e, i, v, g, h, hg => by
+    simp only [List.replicate, VRels] at h
+    cases i with
+    | zero => simp only [List.set_cons_zero, List.replicate, VRels]; exact ⟨hg, h.2⟩
+    | succ i => simp only [List.set_cons_succ, List.replicate, VRels]; exact ⟨h.1, toGVs_set i h.2 hg⟩
 
 theorem hasTys_replicate_set {env : Env} {η : Hp} : ∀ {vs : List Val} {len : Nat} {e : Ty} (i : Nat) {v : Val},
     HasTys env η vs (List.replicate len e) → HasTy env η v e → HasTys env η (vs.set i v) (List.replicate len e)
